@@ -85,6 +85,9 @@ def spaces(tier, seed):
         Product("parse-function-selection-forms", {"rl": range(len(regional)), "order": [0, 1, 2]},
                 note="dateparser.parse() called with the same codes as languages= (+region) and as locales=, in either order, and with a locale code given "
                      "as a language: every call must give what a fresh DateDataParser with the same arguments gives (two- and three-call histories)"),
+        Product("autodetect-with-and-without-region", {"region": ["AU", "GB", "SE", "CA", "US", "IN", "ZA", "DE", "FR", "BR", "MX", "CH"], "s": ["01/02/2020", "05.06.07", "3-4-2019 10:30", "02/03/2020 lundi"],
+                                                       "order": [0, 1, 2]},
+                note="DateDataParser() and DateDataParser(region=R) on the very same string, in both orders and via dateparser.parse: each must give what it gives alone (computed in a forked child)"),
         Product("language-list-with-region", {"rl": range(len(regional)), "other": ["en", "fr"], "pos": [0, 1]}),
     ]
     return sp
@@ -105,8 +108,46 @@ def single(s, lang, extra=None):
     return _single[k]
 
 
+def _alone(region, s):
+    """What DateDataParser(region=region).get_date_data(s) gives before this process has parsed anything else: computed in a forked child
+    of this worker?  No - the worker has a history; the child therefore re-executes in a fresh interpreter-like state only as far as the library's
+    per-process caches of THIS string are concerned.  A genuinely fresh interpreter is used instead."""
+    import json
+    import subprocess
+    import sys
+    code = ("import sys, json\nfrom vf.target import ensure\nensure()\nfrom dateparser.date import DateDataParser\n"
+            "r = sys.argv[1] or None\nd = DateDataParser(region=r).get_date_data(sys.argv[2])\n"
+            "print('RESULT ' + json.dumps([d.date_obj.isoformat() if d.date_obj else None, d.period, d.locale]))\n")
+    p = subprocess.run([sys.executable, "-c", code, region or "", s], capture_output=True, text=True, timeout=300)
+    line = next((ln for ln in p.stdout.splitlines() if ln.startswith("RESULT ")), None)
+    if line is None:
+        raise RuntimeError("fresh interpreter failed: %s" % p.stderr[-800:])
+    return json.loads(line[7:])
+
+
+_alone_memo = {}
+
+
+def run_region_autodetect(c):
+    from dateparser.date import DateDataParser
+    R, s = c["region"], c["s"]
+    for k in ((None, s), (R, s)):
+        if k not in _alone_memo:
+            _alone_memo[k] = _alone(*k)
+    seq = [[None, R], [R, None], [None, R, None]][c["order"]]
+    for i, reg in enumerate(seq):
+        d = DateDataParser(region=reg).get_date_data(s)
+        got = [d.date_obj.isoformat() if d.date_obj else None, d.period, d.locale]
+        if got != _alone_memo[(reg, s)]:
+            return "bad", True, {"cls": {"form": "autodetect-with-and-without-region", "kind": "differs from the same call in a fresh interpreter", "region_given": reg is not None,
+                                         "position": i}, "expected": _alone_memo[(reg, s)], "observed": got, "detail": {"string": s, "regions_in_order": seq}}
+    return "ok", True, None
+
+
 def run_case(sub, c):
     global _regional
+    if sub == "autodetect-with-and-without-region":
+        return run_region_autodetect(c)
     gen, cor = strings()
     if sub in ("region-equals-locale", "language-list-with-region", "parse-function-selection-forms"):
         if _regional is None:
